@@ -210,7 +210,31 @@ func (core *JApiCore) ProcessAllOf() *jerr.JApiError {
 		return je
 	}
 
-	return core.processResponseAllOf()
+	if je := core.processResponseAllOf(); je != nil {
+		return je
+	}
+
+	return core.processJsonRpcAllOf()
+}
+
+func (core *JApiCore) processJsonRpcAllOf() *jerr.JApiError {
+	return adoptError(core.catalog.Interactions.Each(func(_ catalog.InteractionID, v catalog.Interaction) error {
+		ri, ok := v.(*catalog.JsonRpcInteraction)
+		if !ok {
+			return nil
+		}
+		if p := ri.Params; p != nil && p.Schema != nil && p.Schema.Notation == notation.SchemaNotationJSight {
+			if err := core.processSchemaContentJSightAllOf(p.Schema.ContentJSight, p.Schema.UsedUserTypes); err != nil {
+				return p.Directive.BodyError(err.Error())
+			}
+		}
+		if r := ri.Result; r != nil && r.Schema != nil && r.Schema.Notation == notation.SchemaNotationJSight {
+			if err := core.processSchemaContentJSightAllOf(r.Schema.ContentJSight, r.Schema.UsedUserTypes); err != nil {
+				return r.Directive.BodyError(err.Error())
+			}
+		}
+		return nil
+	}))
 }
 
 func (core *JApiCore) processUserTypes() *jerr.JApiError {
